@@ -52,6 +52,8 @@ def _mk_condition(W, data, cond):
         return (cond["mask"],), {}
     if kind == "kw":
         return (), {cond["col"]: cond["value"]}
+    if kind == "kw2":
+        return (), {cond["col"]: cond["value"], cond["col2"]: cond["value2"]}
     if kind == "lambda":
         col, value = cond["col"], cond["value"]
         return ((lambda d: d[col] == value),), {}
@@ -553,6 +555,11 @@ def aggregate_once(inp, di):
     if name == "nth": pos = [inp["index"]]
     if name == "quantile": pos = [inp["q"]]
     data = di.DataFrame(g=inp["g"], x=inp["x"])
+    if inp.get("then"):
+        # a second helper on the same column in the same aggregate() call
+        t = inp["then"]
+        tpos = [t["index"]] if t["helper"] == "nth" else []
+        return data.group_by("g").aggregate(y=f("x", *pos, **kw), y2=getattr(di, t["helper"])("x", *tpos, **_helper_kwargs(t)))
     return data.group_by("g").aggregate(y=f("x", *pos, **kw))
 
 class Passthrough:
